@@ -44,7 +44,7 @@ FLOORS = {'*': {
     'refused:PO': 50, 'refused:PK': 500, 'refused:KO': 100, 'refused:VA': 20, 'refused:VK': 20,
     'mode:none': 100, 'mode:name': 100, 'mode:positional': 50, 'mode:view': 100, 'mode:view-classmethod': 100,
     'mode:view-staticmethod': 100, 'annotations-for-the-type-checker-only': 300, 'parameter-names-the-library-uses-itself': 300,
-    'style:async-wrapped': 100, 'validator:pydantic': 100, 'validator:base-with-exclude_param': 300,
+    'style:async-wrapped': 100, 'validator:pydantic': 100, 'validator:base-with-exclude_param': 300, 'validator:jsonschema-permissive': 300,
     'style:def': 300, 'style:async': 300, 'style:async-plain': 300, 'client-names-context': 100,
     'context-identity-checked': 500, 'dual-registration-calls': 500,
 }}
@@ -209,6 +209,10 @@ def param_cases(params):
     names = list(dict.fromkeys(names))
     # by-name arguments wrapped as the only element of an array: an array is positional whatever it holds
     yield [{n: f'v_{n}' for n in names[:-2]}]
+    # positional VALUES that are spelled like parameter names (the context parameter's among them): values are just values
+    for n in (1, 2, 3):
+        yield (['ctx'] + names)[:n]
+        yield list(reversed(names))[:n]
     for r in range(len(names) + 1):
         for sub in itertools.combinations(names, r):
             if not sub:
@@ -227,6 +231,13 @@ def run_program(ctx, sig, ctx_at, mode, style, annot=False, names=0, validator=N
             from pjrpc.server.validators import pydantic as vpd
             ctx.hit('validator:pydantic')
             vpd.PydanticValidator().validate(ns['f'])
+        elif validator == 'jsonschema':
+            # the JSON-schema validator with a schema that constrains nothing: binding alone decides
+            from pjrpc.server.validators import jsonschema as vjs
+            ctx.hit('validator:jsonschema-permissive')
+            target = ns['f'] if not mode.startswith('view') else ns['View'].__dict__['f']
+            target = getattr(target, '__func__', target)
+            vjs.JsonSchemaValidator().validate(target, schema={'type': 'object'})
         elif validator == 'predicate':
             # a validator built with the exclude_param option (dependency injection) whose predicate excludes nothing here: the
             # context parameter the dispatcher names is excluded all the same
@@ -429,6 +440,9 @@ def gen(ctx):
                 if k % 4 == 1 and style != 'async-wrapped':
                     yield 'program', {'sig': sig, 'ctx_at': at, 'mode': mode, 'style': style, 'annot': False, 'names': names,
                                       'validator': 'predicate'}
+                if k % 4 == 3 and style != 'async-wrapped':
+                    yield 'program', {'sig': sig, 'ctx_at': at, 'mode': mode, 'style': style, 'annot': False, 'names': names,
+                                      'validator': 'jsonschema'}
                 if (k % 2 == 0 and not mode.startswith('view') and style != 'async-wrapped' and all(p[0] in ('PK', 'KO') for p in sig)
                         and any(p[1] for p in sig)):
                     # the same program under the pydantic validator (kinds the known findings D4 / D18 do not involve)
